@@ -42,6 +42,36 @@ Definition fresh_arr (t : vpt) (r c f : nat) : arr V :=
   mkarr V t r c f false (fun _ => 0%Z) (fun _ _ => vzero) (fun _ => vdef) (fun _ _ => vdef) 0 None 7 6.
 End AllocInit.
 
+
+(* ---------------------------------------------------------------- pointer getters and NULL *)
+(* vnadata_get_frequency_vector, vnadata_get_matrix, vnadata_get_z0_vector and
+   vnadata_get_fz0_vector return the library's internal pointer; it is NULL - the documented
+   failure value - on a SUCCESSFUL call when the corresponding allocation is still 0 (a fresh
+   object, or dimensions that never exceeded 0).  `ptr_null d o`: the pointer such a call returns
+   is NULL.  (AccessorsProofs.null_pointer_only_when_empty: then there is nothing to read.) *)
+Section Ptr.
+Variable V : Type.
+Definition ptr_null (d : vd V) (o : op V) : bool :=
+  match o with
+  | OGetFreqVec _ => Nat.eqb (f_alloc V d) 0
+  | OGetMatrix _ _ => Nat.eqb (m_alloc V d) 0
+  | OGetZ0Vec _ => Nat.eqb (p_alloc V d) 0
+  | OGetFz0Vec _ _ => Nat.eqb (p_alloc V d) 0
+  | _ => false
+  end.
+
+(* ---------------------------------------------------------------- fmin / fmax as the manual words them *)
+(* vnadata(3): vnadata_get_fmin / vnadata_get_fmax return "the lowest and highest frequencies".
+   The code (and ArraySpec.spec_step, which follows the code here) returns the FIRST and the LAST
+   element of the frequency vector; the container accepts frequencies in any order. *)
+Definition is_lowest (a : arr V) (x : Z) : Prop :=
+  (exists i, i < a_freqs V a /\ a_fv V a i = x) /\ forall i, i < a_freqs V a -> (x <= a_fv V a i)%Z.
+Definition is_highest (a : arr V) (x : Z) : Prop :=
+  (exists i, i < a_freqs V a /\ a_fv V a i = x) /\ forall i, i < a_freqs V a -> (a_fv V a i <= x)%Z.
+Definition ascending (a : arr V) : Prop :=
+  forall i j, i <= j -> j < a_freqs V a -> (a_fv V a i <= a_fv V a j)%Z.
+End Ptr.
+
 (* ---------------------------------------------------------------- the format: vector and cached string *)
 Section Format.
 Variable tok : Type.
